@@ -152,6 +152,34 @@ def run(ctx):
              "byte size restored" if ok else "a %s read back from JSON keeps bytes() == 0 (the branch sets only the kind pointer)" % t)
     if len(branches) < 6:
         raise AnalysisBroken("dtype_t::fromJson: only %d tag branches found" % len(branches))
+    # a composite built with addField and one read back from JSON must account their members the same way
+    def accumulation(nodes):
+        out = set()
+        for x in nodes:
+            tg = write_target(x)
+            if tg is None or not render(strip(tg), False).endswith("bytes_"):
+                continue
+            if x["k"] == "CompoundAssignOperator" and x.get("op") == "+=":
+                out.add("sum of the members")
+            elif any(is_call(c) and (callee(c) or "").endswith("std::max") for c in walk(kids(x)[1])):
+                out.add("maximum of the members")
+            else:
+                out.add("assignment")
+        return out
+    af = prog.fn("occa::dtype_t::addField")
+    un_if = [n for n in af.walk() if n["k"] == "IfStmt" and "union_" in render(kids(n)[0], False) and len(kids(n)) >= 3 and "bytes_" in render(kids(n)[1], False)]
+    if len(un_if) != 1:
+        raise AnalysisBroken("dtype_t::addField: union / struct branches not found")
+    built = {"union": accumulation(walk(kids(un_if[0])[1])), "struct": accumulation(walk(kids(un_if[0])[2]))}
+    for kind in ("struct", "union"):
+        if kind not in branches:
+            raise AnalysisBroken("dtype_t::fromJson: no %s branch" % kind)
+        read = accumulation(walk(branches[kind]))
+        ok = bool(read) and read == built[kind]
+        R.ob("C11-R2", ok, fj.q, "branch:%s accounts its members like addField" % kind, fj.site(branches[kind]),
+             "both: %s" % ", ".join(sorted(read)) if ok else
+             "fromJson computes the size of a %s as the %s, addField as the %s: a %s extended with addField changes its bytes() when it goes through toJson / fromJson" %
+             (kind, "/".join(sorted(read)) or "?", "/".join(sorted(built[kind])) or "?", kind))
 
     # ---- R3 -----------------------------------------------------------------------
     for cls in ("dtypeStruct_t", "dtypeUnion_t"):
